@@ -1127,7 +1127,7 @@ func (s *blSim) buildTable(pc *blPoolCfg, now time.Time) *blTable {
 			}
 			if row.hi[v] == blMaybe || row.lo[v] == blMaybe {
 				t.exact = false
-				s.r.Probe(fmt.Sprintf("inexact:variant%d-hi%d-lo%d", v, row.hi[v], row.lo[v]))
+				s.r.Probe("verdict-on-threshold-boundary:" + []string{"node", "prod"}[v])
 			}
 			t.est[v][name] = map[string]int64{blCPU: row.use[v][blCPU], blMem: row.use[v][blMem]}
 		}
